@@ -170,7 +170,8 @@ def prove_contracts(keys, budget_s=10.0, procs=None, recheck=False):
     solved = smt.discharge(todo, budget_s=budget_s, procs=procs) if todo else {}
     # vacuity: a sentinel `False` that is provable means contradictory requires / invariants / axioms
     if sentinels:
-        sres = smt.discharge([q[3] for q in sentinels], budget_s=min(budget_s, 2.0), procs=procs, want_model=False,
+        # sentinels are expected to be *un*provable, so each one costs its whole budget: short in the quick tier
+        sres = smt.discharge([q[3] for q in sentinels], budget_s=(0.5 if budget_s <= 10.0 else 2.0), procs=procs, want_model=False,
                              portfolio=False)
         for key, name, inst, q in sentinels:
             res = sres[inst][0]
